@@ -53,8 +53,6 @@ structure Mon where
   /-- rules of the trigger sequence whose action has not returned; while `running`
       the head is the action being executed -/
   todo     : List Nat := []
-  /-- rules whose action has returned (history) -/
-  returned : List Nat := []
   /-- rules whose action returned an error (history; = the local `errors` map of `ProcessEvent`) -/
   failed   : List Nat := []
   /-- `monitorBase.Err` (keys of `TaskError.ErrorMap`) -/
@@ -105,8 +103,12 @@ structure State where
 inductive Event where
   /-- `AddEventAndWait`: the wait observer is added (before `AddEvent`) -/
   | register
+  /-- `AddEvent` of a triggering event with the root monitor: the finish-handler observer is added
+      (before `Activate` and `pool.AddTask`) -/
+  | regHandler
   /-- `AddEvent(event, m)`: `trig` = `IsTriggering`; `rules` = the rules `ProcessEvent` will
-      execute for it, in order (distinct names) -/
+      execute for it, in order (distinct names). `trig = false`: `Skip` ⇒ `Finish`. `trig = true`:
+      `Activate` + `pool.AddTask` (queue push); for the root monitor this comes after `regHandler`. -/
   | addEvent (m : Nat) (trig : Bool) (rules : List Nat)
   /-- `p.NewChildMonitor` — by the action executing under `p` -/
   | newChild (p : Nat)
@@ -159,19 +161,27 @@ def step (s : State) : Event → Option State
       | .fresh => some { s with waiting := true, obsWait := s.obsWait + 1 }
       | _ => none
     | none => none
+  | .regHandler =>
+    if s.handlerReg then none else
+    match s.mons[0]? with
+    | some r =>
+      match r.phase with
+      | .fresh => some { s with handlerReg := true, obsHandler := s.obsHandler + 1 }
+      | _ => none
+    | none => none
   | .addEvent i trig rules =>
     match s.mons[i]? with
     | some m =>
       match m.phase with
       | .fresh =>
         if trig then
-          if rules.Nodup then
+          -- the root's finish-handler observer is registered before the task is handed to the pool
+          if rules.Nodup ∧ (i = 0 → s.handlerReg = true) then
             let s1 := s.setMon i { m with phase := .queued, todo := rules }
-            some { s1 with obsHandler := if i = 0 then s1.obsHandler + 1 else s1.obsHandler,
-                           handlerReg := s1.handlerReg || (i == 0),
-                           obsQueue := if s1.hasQueue then s1.obsQueue else s1.obsQueue + 1,
+            some { s1 with obsQueue := if s1.hasQueue then s1.obsQueue else s1.obsQueue + 1,
                            hasQueue := true }
           else none
+        else if i = 0 ∧ s.handlerReg = true then none   -- the non-triggering path registers nothing
         else some (finishOne (s.setMon i { m with phase := .done, skipped := true }))
       | _ => none
     | none => none
@@ -199,7 +209,6 @@ def step (s : State) : Event → Option State
       match m.phase, m.todo with
       | .running _, r :: rest =>
         some (s.setMon i { m with todo := if !ok && s.failFirst then [] else rest,
-                                  returned := m.returned ++ [r],
                                   failed := if ok then m.failed else m.failed ++ [r] })
       | _, _ => none
     | none => none
@@ -254,6 +263,26 @@ def step (s : State) : Event → Option State
   | .allErrors => some s
 
 def run (s : State) (es : List Event) : Option State := es.foldlM step s
+
+/-- the variant "finish-handler observer added AFTER `pool.AddTask`" (not the code; used as a negative
+    witness): the root may be pushed without the handler, the handler is registered later -/
+def stepLate (s : State) : Event → Option State
+  | .regHandler =>
+    if s.handlerReg then none else
+    match s.mons[0]? with
+    | some r => if r.phase = .fresh ∨ r.skipped then none
+                else some { s with handlerReg := true, obsHandler := s.obsHandler + 1 }
+    | none => none
+  | .addEvent 0 true rules =>
+    match s.mons[0]? with
+    | some m =>
+      match m.phase with
+      | .fresh =>
+        let s1 := s.setMon 0 { m with phase := .queued, todo := rules }
+        some { s1 with obsQueue := if s1.hasQueue then s1.obsQueue else s1.obsQueue + 1, hasQueue := true }
+      | _ => none
+    | none => none
+  | e => step s e
 
 /-- reachable from the initial state of a cascade by any sequence of events -/
 def Reachable (s : State) : Prop := ∃ workers failFirst es, run (init workers failFirst) es = some s
@@ -314,48 +343,5 @@ def sumWeights : List Mon → Nat
 def workLeft (s : State) : Nat :=
   sumWeights s.mons + (if s.posted = 0 then 2 + s.obsWait + s.obsHandler + s.obsQueue else 0)
     + s.dWait + s.dHandler + s.dQueue + (if s.hasQueue then 1 else 0)
-
-/-! ### several cascades on one processor
-
-Root monitors share no state: `RootMonitor` fields are per root, the observer table and the task
-queues are keyed by the root, the pump calls only the callbacks registered for the posting root.
-What they share is the pool: a worker occupied by a task of one cascade cannot take a task of
-another. -/
-
-structure Sys where
-  workers   : Nat
-  failFirst : Bool
-  roots     : List State
-  deriving Repr
-
-inductive SysEvent where
-  /-- `NewRootMonitor` -/
-  | newRoot
-  /-- event `e` of cascade `r` -/
-  | at (r : Nat) (e : Event)
-  deriving Repr
-
-def Sys.init (workers : Nat) (failFirst : Bool) : Sys := { workers, failFirst, roots := [] }
-
-/-- worker `w` is not occupied by a task of any cascade -/
-def Sys.workerFree (S : Sys) (w : Nat) : Bool := S.roots.all fun s => s.workerFree w
-
-/-- the pool lets worker `w` take a task only when it is free in every cascade -/
-def Sys.allows (S : Sys) : Event → Bool
-  | .pop w _ => S.workerFree w
-  | _ => true
-
-def Sys.step (S : Sys) : SysEvent → Option Sys
-  | .newRoot => some { S with roots := S.roots ++ [Cascade.init S.workers S.failFirst] }
-  | .at r e =>
-    match S.roots[r]? with
-    | some s =>
-      if S.allows e then (Cascade.step s e).map fun s' => { S with roots := S.roots.set r s' }
-      else none
-    | none => none
-
-def Sys.run (S : Sys) (es : List SysEvent) : Option Sys := es.foldlM Sys.step S
-
-def Sys.Reachable (S : Sys) : Prop := ∃ workers failFirst es, Sys.run (Sys.init workers failFirst) es = some S
 
 end Ecal.Cascade
